@@ -56,7 +56,7 @@ def check(rep, an, tier):
                     continue         # (with center=False the data are mean-centred first: the origin lies inside the hull)
                 rep.violated("R-QTY", "support function is an extremum over the samples only", where=ev.loc, construct=ev.text(), entry=entry,
                              config=res.config,
-                             msg="`initial=` adds a phantom sample to every projection: with center=True (no mean subtraction) the result is the "
+                             msg="an initial value of the extremum (`initial=`, or a running maximum kept in a zero-initialised buffer) adds a phantom sample to every projection: with center=True (no mean subtraction) the result is the "
                                  "mean width of hull(X ∪ {initial}) — not translation invariant, and different from the loop path")
             R.rule_purity(rep, res, entry)
             R.rule_index_space(rep, res, entry)
@@ -189,6 +189,23 @@ def check(rep, an, tier):
                          msg=f"the returned extent is multiplied by a length scale raised to the AMBIENT dimension (extent "
                              f"{'⊗'.join(r_.d['val'].flat().tag('pow_by_extent'))} of the input): for a flat cloud, whose hull is measured inside "
                              f"its k-dimensional span, the result is no longer homogeneous of degree k")
+    # … and on the branch where the projection returns a hull object (a flat cloud measured inside its k-dimensional span)
+    def summary_hull(I, e, fn, args, kws):
+        f = args[0].flat()
+        return Val(data=f.data | {"projected#"}, shp=f.shp, ctrl=f.ctrl, unit=None, tags={"kind": "hull", "isinstance": "ConvexHull", "notnone": True,
+                                                                                           "points": args[0]})
+    res_h = an.run(f"{MET}:compute_volume", kws=dict(X=arr("X", S("M", "DIM"), {"u": 1})),
+                   spec={"summaries": {"dreye.api.project:proj_P_for_hull": summary_hull}}, config="flat cloud (projection returns a hull)")
+    bad = [r_ for r_ in res_h.events("return") if len(r_.path) == 1 and r_.d["val"].flat().tag("pow_by_extent")]
+    for r_ in bad:
+        rep.violated("R-QTY", "the volume of a flat cloud scales with the dimension of its affine span", where=r_.loc, construct=r_.text(),
+                     entry="compute_volume", config=res_h.config,
+                     msg=f"the hull volume is multiplied by a length scale raised to the AMBIENT dimension (extent "
+                         f"{'⊗'.join(r_.d['val'].flat().tag('pow_by_extent'))} of the input): for a flat cloud, whose hull is measured inside "
+                         f"its k-dimensional span, the result is off by scale**(d − k)")
+    if not bad:
+        rep.holds("R-QTY", "the volume of a flat cloud scales with the dimension of its affine span", where=res_h.fn.loc(),
+                  construct="hull branch of compute_volume", entry="compute_volume", config=res_h.config)
     rets = [r for r in res.events("return") if len(r.path) == 1 and "projected#" in r.d["val"].flat().data | r.d["val"].flat().ctrl]
     deg = [r for r in rets if "projected#" in r.d["val"].flat().data]
     rep.check("R-QTY", "flat clouds: the extent is measured on the projected points", bool(deg), where=res.fn.loc(),
@@ -266,6 +283,22 @@ def check(rep, an, tier):
                                       entry=entry, config=res.config,
                                       msg=f"with relative=False the {lab} still depends on {o}: numerator and denominator of the fractional gamut "
                                           f"are taken in different capture spaces")
+            # the measured cloud is the WHOLE vertex set of the gamut: the all-off corner is a vertex of it (the slice at a total at_l1 below
+            # a single source's total, and the absolute fraction, depend on it) — only the chromatic tests may drop it
+            for ev in res.events("call"):
+                fn = ev.d["callee"]
+                if fn.name != "_get_P_from_A" or not R.near(ev):
+                    continue
+                bound = dict(ev.d["kws"])
+                for i, a in enumerate(ev.d["args"]):
+                    if i + 1 < len(fn.params):
+                        bound.setdefault(fn.params[i + 1], a)
+                rz = bound.get("remove_zero")
+                st = True if (rz is None or (rz.known and not rz.const)) else (False if (rz.known and rz.const) else None)
+                rep.check("R-FORWARD", "the measured gamut cloud keeps the all-off corner", st, where=ev.loc, construct=ev.text()[:80], entry=entry,
+                          config=res.config,
+                          msg="the vertex set is requested without its all-off corner: hull slices at a total below the dimmest single source and "
+                              "the absolute-capture fraction are computed for a smaller set (fraction 0 or too small)")
             R.rule_effect_free(rep, res, entry, reg=_reg(an))
     rep.require("R-QTY", 8)
     rep.require("R-FORWARD", 30)
